@@ -2209,6 +2209,11 @@ def compute_unique_slug(
         if child.type in ["text", "code_inline"]
     )
     slug = slug_func(title)
+    if not isinstance(slug, str):
+        # e.g. a custom function without ``return``: reported as a failure of it
+        raise TypeError(
+            f"heading_slug_func returned a non-string for {title!r}: {slug!r}"
+        )
     uniq = slug
     i = 1
     while uniq in slugs:
